@@ -60,7 +60,7 @@ ItemKinds ==
 \* the small pool: blocks of one type whose dynamically typed attribute is unset / a number / a
 \* string / unknown, a labelled type with two keys, an unexpected block and an attribute
 FewItems == {IBlock("p", <<>>, <<>>), IBlock("p", <<>>, <<IAttr("a", NNum(2))>>), IBlock("p", <<>>, <<IAttr("a", StrLit("x"))>>),
-             IBlock("p", <<>>, <<IAttr("a", NVar("d"))>>),
+             IBlock("p", <<>>, <<IAttr("a", NVar("d"))>>), IBlock("p", <<>>, <<IAttr("a", NTuple(<<NNum(2)>>))>>),
              IBlock("q", <<"x">>, <<IAttr("a", NNum(2))>>), IBlock("q", <<"y">>, <<>>), IBlock("q", <<"x">>, <<IAttr("a", StrLit("x"))>>),
              IAttr("a", NNum(2))}
 
